@@ -139,7 +139,13 @@ pub fn run(seed: u64, count: usize, outdir: &str) -> std::io::Result<i32> {
         check_trace(&jp, cc, "jit-point", &mut bad);
         if let Ok(t) = &ti { check_trace(t, cc, "vm-interval", &mut bad); }
         if let Ok(t) = &ji { check_trace(t, cc, "jit-interval", &mut bad); }
-        if tp != jp { bad.push(format!("jit-point trace {jp:?} differs from interpreter's {tp:?}")); }
+        // a point at which the sign of a zero is open (min / max of opposite zeros, abs(-0), atan2 with a zero first argument): the JIT and
+        // the interpreter may then compute different VALUES downstream (C02 allows it) and so decide later clauses differently
+        let sign_of_zero_open = { let mut orc = crate::refeval::Oracle::default(); let env = |v: Var| p[var_id(v, &dag.vs) as usize];
+            let _ = crate::refeval::eval_arena(&dag.ctx, &env, &mut orc); orc.zero_tie || orc.atan00 || orc.atan_y_zero || orc.abs_of_neg_zero };
+        if tp != jp && !sign_of_zero_open { bad.push(format!("jit-point trace {jp:?} differs from interpreter's {tp:?}")); }
+        // (the model judges the JIT's point trace against its own: hand it the interpreter's at such a point)
+        let jp_for_model = if sign_of_zero_open { tp.clone() } else { jp.clone() };
         bad.extend(shape_and_meta(&vm, &dag.vs, &mut r, nvars, "vm"));
         bad.extend(shape_and_meta(&jit, &dag.vs, &mut r, nvars, "jit"));
         if vm.output_count() != dag.roots.len() || jit.output_count() != dag.roots.len() { bad.push("function output_count differs from the number of roots".into()); }
@@ -151,7 +157,7 @@ pub fn run(seed: u64, count: usize, outdir: &str) -> std::io::Result<i32> {
         for rt in &dag.roots { write!(line, " {}", rt.verif_index()).unwrap(); }
         write!(line, " {nvars} {}", fmt_bits(&p)).unwrap();
         for (l, u) in &bx { write!(line, " {} {}", canon_bits(*l), canon_bits(*u)).unwrap(); }
-        for g in [&jp, &ji.clone().unwrap_or(None)] {
+        for g in [&jp_for_model, &ji.clone().unwrap_or(None)] {
             match g { None => write!(line, " 0 0").unwrap(),
                       Some(v) => { write!(line, " 1 {}", v.len()).unwrap(); for c in v { write!(line, " {c}").unwrap(); } } }
         }
